@@ -82,3 +82,23 @@ pub fn values(s: &mut Session, cmd: &Value) -> Value {
     }
     json!({"ok": true, "frames": frames})
 }
+
+/// {"op":"dqe","exprs":[..]}: parse each text with the real parser and evaluate it.
+pub fn dqe(s: &mut Session, cmd: &Value) -> Value {
+    use chumsky::Parser;
+    let exprs: Vec<String> = serde_json::from_value(cmd["exprs"].clone()).unwrap_or_default();
+    let d = s.dbg.as_ref().unwrap();
+    let mut out = serde_json::Map::new();
+    for e in exprs {
+        let parsed = bugstalker::ui::command::parser::expression::parser().parse(e.as_str()).into_result();
+        let r = match parsed {
+            Err(_) => json!({"parse_error": true}),
+            Ok(q) => match d.read_variable(q) {
+                Ok(res) => json!({"ok": named(res)}),
+                Err(err) => json!({"error": format!("{err}")}),
+            },
+        };
+        out.insert(e, r);
+    }
+    json!({"ok": true, "results": out})
+}
